@@ -23,6 +23,10 @@ extern int mpt_property_match(const char *match, int mlen, const char * const *s
 	if (!match) {
 		return MPT_ERROR(BadArgument);
 	}
+	/* minimal length, longer names must be a prefix completely */
+	if (mlen >= 0 && strlen(match) > (size_t) mlen) {
+		mlen = strlen(match);
+	}
 	/* find property name */
 	pos = 0;
 	while (pos < len) {
